@@ -47,6 +47,7 @@ struct Task {
   void *fake_stack = nullptr;
   bool started = false;
   int in_harness = 0;
+  long wake_tick = 0;
 };
 
 struct Proc { bool alive = true; bool ended = false; };
@@ -71,6 +72,7 @@ class World {
   std::function<void(int, long)> on_point;
   std::function<void(int, const std::string &)> on_uncaught;
   bool finished = false;
+  long ticks = 0;          // simulated time
   bool in_sched = false;   // inside the scheduler's own bookkeeping: its allocations are not decision points
   long alloc_stride = 0, alloc_offset = 0, alloc_count = 0, alloc_taken = 0;
   std::function<bool()> alloc_gate;
@@ -131,6 +133,7 @@ const char *kind_name(int k) {
     case K_WRITE: return "write";
     case K_READ: return "read";
     case K_ALLOC: return "alloc";
+    case K_SLEEP: return "sleep";
     default: break;
   }
   static thread_local char buf[16];
@@ -165,7 +168,22 @@ void harness_error(const char *fmt, ...) {
 bool active() { return W != nullptr && !W->finished && W->current != &W->mainctx; }
 int self() { return active() ? W->current->id : -1; }
 int self_proc() { return active() ? W->current->proc : 0; }
-long now_step() { return W ? W->res.steps : 0; }
+long now_step() { return W ? W->ticks : 0; }
+long long now_ns() { return (W ? (long long)W->ticks : 0LL) * TICK_NS; }
+void sleep_ns(long long ns) {
+  if (!active()) return;
+  long k = 1 + (long)(ns / TICK_NS);
+  if (k > 100000) k = 100000;
+  Task *t = W->current;
+  t->state = T_BLOCKED;
+  t->wait_kind = K_SLEEP;
+  t->wait_obj = k;
+  t->wake_tick = W->ticks + k;
+  // fairness: a task that sleeps or yields signals that it cannot make progress by itself; under the strict
+  // priorities of PCT it would otherwise starve the task it is waiting for (retry loops with back-off)
+  if (W->cfg.strat.type == Strategy::PCT && !W->cfg.use_deviations) t->prio = --W->pct_low;
+  point(K_SLEEP, k);
+}
 
 static inline void record(int kind, long obj, long a) {
   Result &r = W->res;
@@ -243,11 +261,20 @@ static void decide(int kind, long obj) {
   for (;;) {
     std::vector<int> runnable;
     int blocked = 0;
+    long next_wake = -1;
     for (Task *t : W->tasks) {
+      if (t->state == T_BLOCKED && t->wait_kind == K_SLEEP) {
+        if (t->wake_tick <= W->ticks) t->state = T_RUNNABLE;
+        else if (next_wake < 0 || t->wake_tick < next_wake) next_wake = t->wake_tick;
+      }
       if (t->state == T_RUNNABLE) runnable.push_back(t->id);
       else if (t->state == T_BLOCKED) blocked++;
     }
     if (blocked > W->res.max_blocked) W->res.max_blocked = blocked;
+    if (runnable.empty() && next_wake >= 0) {  // everybody who could run sleeps: jump the clock to the next wake-up
+      W->ticks = next_wake;
+      continue;
+    }
     if (runnable.empty()) {
       if (W->on_idle && W->on_idle()) continue;
       if (blocked > 0) {
@@ -258,6 +285,7 @@ static void decide(int kind, long obj) {
     }
     Result &r = W->res;
     r.steps++;
+    W->ticks++;
     if (r.steps > W->cfg.budget) {
       r.outcome = RUN_BUDGET;
       back_to_main();
